@@ -101,6 +101,11 @@ def jobs(tier, seed):
                   {"shapes": [F([S(3), S(1)])], "opts": {"continue_after_failed_step": True, "out_dom": {"*": [0, 3]}, "stop": "sym"},
                    "checks": ["verdict"]},
                   reach=["C01.no-false-green(events)"], min_paths=20, cost=300, validate=80))
+    # coroutine steps run through behave.api.async_step (plain decorator and the call form with a timeout)
+    for nm, mode in (("async", True), ("async-timeout", "timeout")):
+        js.append(Job(nm, "vlib.stage1:h_stage1",
+                      {"shapes": [F([S(2), S(1)])], "opts": {"async_steps": mode, "out_dom": {"*": [0, 3]}, "stop": "sym"}, "checks": ["verdict"]},
+                      reach=["C01.no-false-green(events)"], min_paths=20, cost=200, validate=60))
     # ... registered for an outer layer (the error surfaces when the rule / feature / test run ends)
     for layer, shape in (("feature", F([S(1), R([S(1)])])), ("rule", F([S(1), R([S(1), S(1)])])), ("testrun", F([S(1), S(1)]))):
         js.append(Job("cleanupfault.%s" % layer, "vlib.stage1:h_stage1",
